@@ -1,6 +1,7 @@
 package props
 
 import (
+	"time"
 	"bytes"
 	"fmt"
 	"io"
@@ -86,6 +87,48 @@ type streamCase struct {
 	Source    string       `json:"source,omitempty"` // "" harness reader | "eof-with-data" | "bytes.Reader@offset" | "os.File@offset"
 	Hdr       int          `json:"header_bytes,omitempty"`
 	PriorFail int          `json:"prior_fail_bytes,omitempty"` // history: an earlier call of the same workflow got only this many bytes
+	PriorWF   string       `json:"prior_workflow,omitempty"`   // ... or of this other workflow ("period", "poweron+fast", "single", ...)
+}
+
+// priorWorkflows: the detections an earlier call in the same process may have been ("" = the workflow under test itself).
+var priorWorkflows = []string{"", "", "period", "poweron", "factory", "period+fast", "poweron+fast", "factory+fast", "single"}
+
+// priorCall is history: an earlier detection in this process, by the named workflow, on a source that delivers data and
+// then runs dry. Its own outcome is not judged here (its own property does that); a panic or a hang is reported by the caller's check of
+// the call under test only if it propagates.
+func priorCall(name string, data []byte) (hung bool) {
+	fast := strings.HasSuffix(name, "+fast")
+	name = strings.TrimSuffix(name, "+fast")
+	fn := func() (bool, error) { return detect.SingleDetect(gen.NewReader(data), len(data)+1) }
+	if w, ok := workflows[name]; ok {
+		fn = func() (bool, error) { return w.Seq(gen.NewReader(data)) }
+		if fast {
+			fn = func() (bool, error) { return w.Fast(gen.NewReader(data)) }
+		}
+	}
+	res := callWatched(fn, time.Minute)
+	return res.Hung
+}
+
+// drawPrior draws the history dimension: with probability 1/3 an earlier failed call (bytes delivered, workflow).
+func drawPrior(t *rapid.T, c *streamCase) {
+	if rapid.IntRange(0, 2).Draw(t, "history") != 0 {
+		return
+	}
+	c.PriorFail = rapid.SampledFrom([]int{1, 2500, 2501, 7000, 25000, 49999}).Draw(t, "prior_fail")
+	c.PriorWF = rapid.SampledFrom(priorWorkflows).Draw(t, "prior_workflow")
+}
+
+func (c streamCase) runPrior(stream []byte, out *Outcome) {
+	if c.PriorFail <= 0 {
+		return
+	}
+	name := c.PriorWF
+	if name == "" {
+		name = c.Workflow
+	}
+	out.Classes = append(out.Classes, "after-a-failed-call", "after-a-failed-call:"+name)
+	priorCall(name, stream[:min(c.PriorFail, len(stream))])
 }
 
 // openSource builds the source a case asks for over the given stream.
